@@ -150,7 +150,7 @@ def run_harness(exe, job_lines_batches, outdir, prefix, parallel=16, timeout=120
                     # last one whose Open event was written; record that as a crash and go on with the next session
                     nopen = sum(1 for l in p.stdout.split(b"\n") if l.startswith(b'{"e":"Open"'))
                     starts = [i for i in range(start, len(lines)) if lines[i].startswith("RAW")]
-                    if nopen == 0 or nopen > len(starts) or crashes > 200:
+                    if nopen == 0 or nopen > len(starts) or crashes > 3000:
                         break
                     fout.write(('{"e":"Crashed","sig":%d}\n' % (-rc)).encode())
                     crashes += 1
@@ -161,7 +161,7 @@ def run_harness(exe, job_lines_batches, outdir, prefix, parallel=16, timeout=120
                     break
                 crashes += 1
                 m = re.search(r"CRASH line=(\d+)", err)
-                if not m or crashes > 200:
+                if not m or crashes > 3000:
                     rc = 98; break
                 at = start + int(m.group(1)) - 1          # index of the line being processed
                 # resume after the end of that job (its CLOSE), or at the next line for call lines
